@@ -535,6 +535,9 @@ pub fn run_worker<P: Property>(args: WorkerArgs) {
         + if (args.worker as u64) < total % args.workers as u64 { 1 } else { 0 };
     let strategy = P::strategy(args.tier);
     let mut pool: Vec<P::Spec> = vec![];
+    // sample for the concurrent phase: an eighth of this worker's cases, between 16 and 256 (x4 thorough)
+    let pool_cap = ((mine / 8) as usize).clamp(16, 256 * args.tier.pick(1, 4));
+    let pool_stride = (mine / (2 * pool_cap as u64)).max(1);
     let mut remaining = mine;
     let mut round = 0u32;
     // Several rounds: after a violation is found and shrunk, continue with the
@@ -577,9 +580,9 @@ pub fn run_worker<P: Property>(args: WorkerArgs) {
                 done.set(done.get() + 1);
                 st.rep.generated += 1;
                 st.record(&spec, &out);
-                if out.failures.is_empty() && out.nontrivial.is_some() && done.get() % 7 == 0 {
+                if out.failures.is_empty() && out.nontrivial.is_some() && done.get() % pool_stride == 0 {
                     let mut pool = poolc.borrow_mut();
-                    if pool.len() < CONCURRENT_POOL {
+                    if pool.len() < pool_cap {
                         pool.push(spec.clone());
                     }
                 }
@@ -685,7 +688,6 @@ pub fn run_worker<P: Property>(args: WorkerArgs) {
     std::fs::write(&args.out, bytes).expect("write report");
 }
 
-const CONCURRENT_POOL: usize = 48;
 const CONCURRENT_THREADS: usize = 4;
 
 fn concurrent_phase<P: Property>(pool: &[P::Spec], env: &Env) -> Vec<(usize, Result<Vec<Failure>, String>)> {
